@@ -111,10 +111,15 @@ func (m *Mutex) TryLock() bool {
 
 // RWMutex ----------------------------------------------------------------------
 
+// RWMutex models sync.RWMutex including its writer preference: a Lock call that has to wait for readers blocks
+// every later RLock until the writer got and released the lock (so a recursive read lock with a writer arriving in
+// between is the deadlock it is at run time). Lock is therefore two scheduling points: announcing the call (always
+// enabled; from then on new readers wait) and acquiring (enabled when no reader and no writer holds).
 type RWMutex struct {
 	mu      sync.RWMutex
 	writer  bool
 	readers int
+	pending int // Lock calls announced and not yet acquired
 }
 
 //go:norace
@@ -123,10 +128,13 @@ func (m *RWMutex) EnabledFor(kind string) bool {
 	case "lock":
 		return !m.writer && m.readers == 0
 	case "rlock":
-		return !m.writer
+		return !m.writer && m.pending == 0
 	}
 	return true
 }
+
+//go:norace
+func (m *RWMutex) addPending(d int) { m.pending += d }
 
 //go:norace
 func (m *RWMutex) note(w bool, dr int) {
@@ -138,7 +146,10 @@ func (m *RWMutex) note(w bool, dr int) {
 func (m *RWMutex) isWriter() bool { return m.writer }
 
 func (m *RWMutex) Lock() {
+	sched.Point("lock-call", m)
+	m.addPending(1)
 	sched.Point("lock", m)
+	m.addPending(-1)
 	m.mu.Lock()
 	m.note(true, 0)
 }
